@@ -184,14 +184,20 @@ Lapse(p, s) == IF s.cli.st # "gone" THEN {}
                ELSE {[s EXCEPT !.cli.file = <<>>, !.srv.sending = FALSE, !.srv.rcv = FALSE, !.srv.file = <<>>]}
 Restart(p, s) == IF s.cli.st # "gone" \/ s.cli.file # <<>> \/ s.srv.sending \/ s.srv.rcv THEN {}
                  ELSE CliStart(p, [s EXCEPT !.cli.st = "idle", !.dead = FALSE])
-RetryActs == {[a |-> x, d |-> "c2s", k |-> 0] : x \in {"abandon", "lapse", "restart"}}
+\*   retry    the same, but at once: the transfer timeout has NOT elapsed, both sides still hold what the abandoned transfer
+\*            left (a response that is still held makes the server refuse the new one: SrvAnswer)
+Retry(p, s) == IF s.cli.st # "gone" THEN {} ELSE CliStart(p, [s EXCEPT !.cli.st = "idle", !.cli.file = <<>>, !.dead = FALSE])
+\*   again    the exchange has completed; the application issues its next request with the same token at once (a response
+\*            of exactly one block is still held by the server - nobody ever asks for a second block: SrvAnswer refuses)
+Again(p, s) == IF s.cli.st # "done" THEN {} ELSE CliStart(p, [s EXCEPT !.cli.st = "idle"])
+RetryActs == {[a |-> x, d |-> "c2s", k |-> 0] : x \in {"abandon", "lapse", "restart", "retry", "again"}}
 
 Acts == {[a |-> "start", d |-> "c2s", k |-> 0], [a |-> "lose", d |-> "c2s", k |-> 0]}
         \cup {[a |-> x, d |-> d, k |-> 0] : x \in {"deliver", "dup", "drop"}, d \in {"c2s", "s2c"}}
         \cup {[a |-> "replay", d |-> "c2s", k |-> k] : k \in 1..12}
 Apply(p, s, a) == CASE a.a = "start" -> CliStart(p, s) [] a.a = "deliver" -> Deliver(p, s, a.d) [] a.a = "dup" -> Dup(p, s, a.d)
                  [] a.a = "drop" -> Drop(p, s, a.d) [] a.a = "replay" -> Replay(p, s, a.k) [] a.a = "lose" -> Lose(p, s)
-                 [] a.a = "abandon" -> Abandon(p, s) [] a.a = "lapse" -> Lapse(p, s) [] a.a = "restart" -> Restart(p, s)
+                 [] a.a = "abandon" -> Abandon(p, s) [] a.a = "lapse" -> Lapse(p, s) [] a.a = "restart" -> Restart(p, s) [] a.a = "retry" -> Retry(p, s) [] a.a = "again" -> Again(p, s)
 
 (* ----------------------------------- C04 ---------------------------------- *)
 \* every delivery to the server application is the exact request body; every body returned to the caller is the exact response body
